@@ -116,6 +116,12 @@ def programs(tier):
         ("text-run-in-data", "10 DATA RUN ecb_play , RUN ecb_hcls , X\n20 READ A$ , B$ , C$"),
         ("text-run-in-data", '10 DATA "RUN ecb_sound" , 1 , "Q"\n20 READ A$ , B , C$'),
         ("text-run-in-data", "10 DATA RUN ecb_play , X\n20 READ A$ , B$"),
+        ("val-with-placeholder-procedures", "10 Z = VAL ( A$ ) : B$ = STRING$ ( 3 , A$ )"),
+        ("val-with-placeholder-procedures", "10 PLAY A$ : Z = VAL ( A$ )"),
+        ("val-with-placeholder-procedures", "10 HDRAW A$ : Z = VAL ( A$ ) : B$ = STRING$ ( 2 , A$ )"),
+        ("backslash-in-literal-argument", '10 P = INSTR ( 1 , A$ , "\\" )'),
+        ("backslash-in-literal-argument", '10 HPRINT ( 1 , 1 ) , "A\\B"'),
+        ("backslash-in-literal-argument", '10 A$ = STRING$ ( 3 , "\\" ) : PLAY "C\\D"'),
         ("text-procedure-in-string", '10 PRINT "procedure ecb_cls"'),
         ("text-procedure-in-data", "10 DATA procedure foo\n20 READ A$"),
         ("text-placeholder-in-string", '10 PRINT "A: STRING<<>>"'),
